@@ -647,4 +647,362 @@ theorem verify_p2sh_p2pk (c : Ctx) (fl : Flags) (body : Bytes) (ht : UInt8) (key
   · simp [checkTopTrue_one, verifyCleanStack_one fl _ hfl, bind, Except.bind]
 
 
+/-! ### multisig: signatures matched to keys in order -/
+
+/-- `Matching chk sigs keys`: the signatures can be assigned, in order, to a subsequence of the keys
+    such that `chk sig key` holds for every assigned pair ("signatures in key order") -/
+inductive Matching (chk : Bytes → Bytes → Bool) : List Bytes → List Bytes → Prop
+  | nil (ks : List Bytes) : Matching chk [] ks
+  | take {s k : Bytes} {ss ks : List Bytes} : chk s k = true → Matching chk ss ks → Matching chk (s :: ss) (k :: ks)
+  | skip {k : Bytes} {ss ks : List Bytes} : Matching chk ss ks → Matching chk ss (k :: ks)
+
+/-- what the loop of `_CheckMultiSig` computes: the first signature is tried against the keys one by
+    one; a key is used up by every attempt -/
+def greedy (chk : Bytes → Bytes → Bool) : List Bytes → List Bytes → Bool
+  | [], _ => true
+  | _ :: _, [] => false
+  | s :: ss, k :: ks => if chk s k then greedy chk ss ks else greedy chk (s :: ss) ks
+
+theorem Matching.tail {chk : Bytes → Bytes → Bool} {s : Bytes} {ss ks : List Bytes}
+    (h : Matching chk (s :: ss) ks) : Matching chk ss ks := by
+  generalize hl : s :: ss = l at h
+  induction h with
+  | nil ks => cases hl
+  | take _ hm _ => cases hl; exact .skip hm
+  | skip _ ih => exact .skip (ih hl)
+
+theorem greedy_of_matching {chk : Bytes → Bytes → Bool} : ∀ (ks ss : List Bytes),
+    Matching chk ss ks → greedy chk ss ks = true := by
+  intro ks
+  induction ks with
+  | nil =>
+    intro ss h
+    cases h
+    rfl
+  | cons k ks ih =>
+    intro ss h
+    cases ss with
+    | nil => rfl
+    | cons s ss =>
+      simp only [greedy]
+      split
+      · apply ih
+        cases h with
+        | take _ hm => exact hm
+        | skip hm => exact hm.tail
+      · rename_i hc
+        apply ih
+        cases h with
+        | take hk _ => exact absurd hk hc
+        | skip hm => exact hm
+
+theorem matching_of_greedy {chk : Bytes → Bytes → Bool} : ∀ (ks ss : List Bytes),
+    greedy chk ss ks = true → Matching chk ss ks := by
+  intro ks
+  induction ks with
+  | nil =>
+    intro ss h
+    cases ss with
+    | nil => exact .nil _
+    | cons s ss => simp [greedy] at h
+  | cons k ks ih =>
+    intro ss h
+    cases ss with
+    | nil => exact .nil _
+    | cons s ss =>
+      simp only [greedy] at h
+      split at h
+      · rename_i hc; exact .take hc (ih _ h)
+      · exact .skip (ih _ h)
+
+theorem greedy_iff_matching (chk : Bytes → Bytes → Bool) (ss ks : List Bytes) :
+    greedy chk ss ks = true ↔ Matching chk ss ks :=
+  ⟨matching_of_greedy ks ss, greedy_of_matching ks ss⟩
+
+theorem greedy_too_many (chk : Bytes → Bytes → Bool) : ∀ (ks ss : List Bytes), ss.length > ks.length →
+    greedy chk ss ks = false := by
+  intro ks
+  induction ks with
+  | nil => intro ss h; cases ss with
+    | nil => simp at h
+    | cons s ss => rfl
+  | cons k ks ih =>
+    intro ss h
+    cases ss with
+    | nil => simp at h
+    | cons s ss =>
+      simp only [greedy]
+      split
+      · apply ih; simp at h ⊢; omega
+      · apply ih; simp at h ⊢; omega
+
+theorem Matching.append {chk : Bytes → Bytes → Bool} {a b c d : List Bytes}
+    (h1 : Matching chk a b) (h2 : Matching chk c d) : Matching chk (a ++ c) (b ++ d) := by
+  induction h1 with
+  | nil ks =>
+    induction ks with
+    | nil => exact h2
+    | cons k ks ih => exact .skip ih
+  | take hk _ ih => exact .take hk ih
+  | skip _ ih => exact .skip ih
+
+/-- order-preserving assignments survive reversing both lists -/
+theorem Matching.reverse {chk : Bytes → Bytes → Bool} {ss ks : List Bytes} (h : Matching chk ss ks) :
+    Matching chk ss.reverse ks.reverse := by
+  induction h with
+  | nil ks => exact .nil _
+  | @take s k ss ks hk _ ih =>
+    rw [List.reverse_cons, List.reverse_cons]
+    exact ih.append (.take hk (.nil []))
+  | @skip k ss ks _ ih =>
+    rw [List.reverse_cons]
+    have := ih.append (Matching.skip (k := k) (Matching.nil (chk := chk) []))
+    simpa using this
+
+
+/-- `_CheckSig(sig, key, script)` as a Boolean: an empty signature fails, otherwise the last byte is
+    the hash type and the rest goes to the signature oracle -/
+def chkSig (c : Ctx) (script sig key : Bytes) : Bool :=
+  match sig.getLast? with
+  | none => false
+  | some ht => c.env.sigCheck sig.dropLast key script ht.toNat
+
+theorem checkSig_total (c : Ctx) (cap : Captured) (sig key sc : Bytes)
+    (hidx : 0 ≤ c.inIdx) (hparse : (rawIter sc).2 = none) :
+    checkSig c cap sig key sc = .ok (chkSig c sc sig key) := by
+  unfold checkSig chkSig
+  cases hs : sig.getLast? with
+  | none =>
+    have : sig = [] := by simpa using hs
+    subst this
+    simp
+  | some ht =>
+    have h1 : ¬ sig.length = 0 := by
+      intro h
+      have : sig = [] := List.length_eq_zero_iff.mp h
+      subst this
+      simp at hs
+    simp only [h1, if_false, hparse, Option.isSome_none, Bool.false_eq_true]
+    split
+    · rfl
+    · rw [if_neg (by omega)]
+      split
+      · rename_i h; omega
+      · rfl
+
+theorem getTop?_nat {α} (l : List α) (j : Nat) : getTop? l ((j : Int) + 1) = l[j]? := by
+  unfold getTop?
+  rw [if_pos (by omega)]
+  congr 1
+  omega
+
+/-- the `while success and sigs_count > 0` loop computes `greedy` (OP_CHECKMULTISIG, not the VERIFY form) -/
+theorem msLoop_greedy (c : Ctx) (script : Bytes) (st : St) (chk : Bytes → Bytes → Bool)
+    (hchk : ∀ s k, checkSig c st.cap s k script = .ok (chk s k)) :
+    ∀ (ks ss : List Bytes) (s : Bytes) (isig ikey : Nat),
+      (s :: ss).length ≤ ks.length →
+      (∀ j, j < ks.length → st.stack[ikey + j]? = ks[j]?) →
+      (∀ j, j < (s :: ss).length → st.stack[isig + j]? = (s :: ss)[j]?) →
+      msLoop c 0xae script st ((isig : Int) + 1) ((s :: ss).length : Nat) ((ikey : Int) + 1) (ks.length : Nat) =
+        .ok (greedy chk (s :: ss) ks) := by
+  intro ks
+  induction ks with
+  | nil => intro ss s _ _ h; simp at h
+  | cons k ks ih =>
+    intro ss s isig ikey hlen hk hs
+    rw [msLoop]
+    have e1 : getTop? st.stack ((isig : Int) + 1) = some s := by
+      rw [getTop?_nat]; have := hs 0 (by simp); simpa using this
+    have e2 : getTop? st.stack ((ikey : Int) + 1) = some k := by
+      rw [getTop?_nat]; have := hk 0 (by simp); simpa using this
+    simp only [e1, e2, pyIdx, bind, Except.bind, hchk s k]
+    cases hc : chk s k
+    · -- no match: the key is used up
+      simp only [Bool.false_eq_true, if_false, greedy, hc]
+      by_cases hgt : ((s :: ss).length : Int) > ((k :: ks).length : Int) - 1
+      · have : greedy chk (s :: ss) ks = false := greedy_too_many chk ks (s :: ss) (by simp at hgt ⊢; omega)
+        rw [this]
+        simp only [List.length_cons] at hgt ⊢
+        rw [if_pos (by push_cast at hgt ⊢; omega)]
+        simp
+      · simp only [List.length_cons] at hgt ⊢
+        rw [if_neg (by push_cast at hgt ⊢; omega)]
+        rw [dif_pos (by push_cast; omega)]
+        have := ih ss s isig (ikey + 1) (by simp at hgt hlen ⊢; omega)
+          (fun j hj => by
+            have := hk (j + 1) (by simp; omega)
+            simp only [List.getElem?_cons_succ] at this
+            rw [← this]; congr 1; omega)
+          hs
+        simp only [List.length_cons] at this
+        rw [← this]
+        congr 1
+        all_goals first | omega | (push_cast; omega) | (simp only [List.length_cons]; push_cast; omega) | rfl
+    · -- match: signature and key are used up
+      simp only [if_true, greedy, hc]
+      simp only [List.length_cons] at hlen ⊢
+      rw [if_neg (by push_cast; omega)]
+      cases ss with
+      | nil =>
+        simp [greedy]
+      | cons s' ss' =>
+        rw [dif_pos (by simp only [List.length_cons]; push_cast; omega)]
+        have := ih ss' s' (isig + 1) (ikey + 1) (by simp at hlen ⊢; omega)
+          (fun j hj => by
+            have := hk (j + 1) (by simp; omega)
+            simp only [List.getElem?_cons_succ] at this
+            rw [← this]; congr 1; omega)
+          (fun j hj => by
+            have := hs (j + 1) (by simp at hj ⊢; omega)
+            simp only [List.getElem?_cons_succ] at this
+            rw [← this]; congr 1; omega)
+        simp only [List.length_cons] at this
+        rw [← this]
+        congr 1
+        all_goals first | omega | (push_cast; omega) | (simp only [List.length_cons]; push_cast; omega) | rfl
+
+
+theorem popN_eq (n : Nat) : ∀ (l : List Bytes), n ≤ l.length → popN n l = .ok (l.drop n) := by
+  induction n with
+  | zero => intro l _; rfl
+  | succ n ih =>
+    intro l h
+    cases l with
+    | nil => simp at h
+    | cons a l =>
+      simp only [popN, pop?, pyIdx, bind, Except.bind, List.drop_succ_cons]
+      exact ih l (by simp at h; omega)
+
+/-- the loop that removes the signatures from the script code, when none of them occurs in it -/
+theorem msDropSigs_noop (st : St) (script : Bytes) (isig : Nat) : ∀ (n k : Nat),
+    (∀ j, j < n → ∃ sig, st.stack[isig + k + j]? = some sig ∧ sig.length < 0x4c ∧
+        findAndDelete st.cap script (pushData sig) = .ok script) →
+    msDropSigs st ((isig : Int) + 1) n k script = .ok script := by
+  intro n
+  induction n with
+  | zero => intro k _; rfl
+  | succ n ih =>
+    intro k h
+    obtain ⟨sig, h1, h2, h3⟩ := h 0 (by omega)
+    have e : getTop? st.stack ((isig : Int) + 1 + (k : Int)) = some sig := by
+      have : ((isig : Int) + 1 + (k : Int)) = ((isig + k : Nat) : Int) + 1 := by push_cast; omega
+      rw [this, getTop?_nat]
+      simpa using h1
+    simp only [msDropSigs, e, pyIdx, bind, Except.bind, encodeOpPushdata_direct sig h2, h3]
+    apply ih
+    intro j hj
+    obtain ⟨s', a, b, d⟩ := h (j + 1) (by omega)
+    exact ⟨s', by rw [← a]; congr 1; omega, b, d⟩
+
+theorem vch2bn_byte (n : Nat) (h2 : n ≤ 127) : vch2bn [UInt8.ofNat n] = .ok (n : Int) := by
+  have ht : (UInt8.ofNat n).toNat = n := toNat_ofNat_lt (by omega)
+  simp [vch2bn, ht, beNat]
+  omega
+
+theorem castToBigNum_byte (n : Nat) (h2 : n ≤ 127) (st : St) : castToBigNum [UInt8.ofNat n] st = .ok (n : Int) := by
+  simp [castToBigNum, vch2bn_byte n h2, bind, Except.bind, MAX_NUM_SIZE]
+
+section stackshape
+variable (a b d : Bytes) (rk rs : List Bytes)
+
+theorem shape_len : (a :: (rk ++ b :: (rs ++ [d]))).length = rk.length + rs.length + 3 := by
+  simp; omega
+
+theorem shape_key (j : Nat) (h : j < rk.length) : (a :: (rk ++ b :: (rs ++ [d])))[1 + j]? = rk[j]? := by
+  rw [Nat.add_comm, List.getElem?_cons_succ, List.getElem?_append_left h]
+
+theorem shape_m : (a :: (rk ++ b :: (rs ++ [d])))[rk.length + 1]? = some b := by
+  rw [List.getElem?_cons_succ, List.getElem?_append_right (Nat.le_refl _)]
+  simp
+
+theorem shape_sig (j : Nat) (h : j < rs.length) : (a :: (rk ++ b :: (rs ++ [d])))[rk.length + 2 + j]? = rs[j]? := by
+  have : rk.length + 2 + j = (rk.length + 1 + j) + 1 := by omega
+  rw [this, List.getElem?_cons_succ, List.getElem?_append_right (by omega)]
+  have : rk.length + 1 + j - rk.length = j + 1 := by omega
+  rw [this, List.getElem?_cons_succ, List.getElem?_append_left h]
+
+theorem shape_drop : (a :: (rk ++ b :: (rs ++ [d]))).drop (rk.length + rs.length + 2) = [d] := by
+  have : a :: (rk ++ b :: (rs ++ [d])) = (a :: rk ++ b :: rs) ++ [d] := by simp
+  rw [this, List.drop_append_of_le_length (by simp; omega)]
+  have : (a :: rk ++ b :: rs).length = rk.length + rs.length + 2 := by simp; omega
+  rw [← this, List.drop_length]
+  rfl
+
+end stackshape
+
+
+/-- `_CheckMultiSig` (OP_CHECKMULTISIG) on the stack  n, keys (last key on top), m, signatures (last
+    signature on top), dummy -/
+theorem checkMultiSig_eval (c : Ctx) (fl : Flags) (sc : Bytes) (rk rs : List Bytes) (alt : List Bytes)
+    (pb nops : Nat) (chk : Bytes → Bytes → Bool)
+    (hn : rk.length ≤ 16) (hm1 : 1 ≤ rs.length) (hm : rs.length ≤ rk.length) (hops : nops + rk.length ≤ 201)
+    (hsl : ∀ s ∈ rs, s.length < 0x4c)
+    (hfad : ∀ s ∈ rs, ∀ cap, findAndDelete cap sc (pushData s) = .ok sc)
+    (hchk : ∀ cap s k, checkSig c cap s k sc = .ok (chk s k)) :
+    checkMultiSig c fl 0xae sc
+        ⟨[UInt8.ofNat rk.length] :: (rk ++ [UInt8.ofNat rs.length] :: (rs ++ [[]])), alt, [], pb, nops⟩ =
+      .ok ⟨[if greedy chk rs rk then [1] else []], alt, [], pb, nops + rk.length⟩ := by
+  obtain ⟨s0, ss0, hrs⟩ : ∃ s0 ss0, rs = s0 :: ss0 := by
+    cases rs with
+    | nil => simp at hm1
+    | cons a b => exact ⟨a, b, rfl⟩
+  obtain ⟨stack, hstack⟩ : ∃ stack, stack = [UInt8.ofNat rk.length] :: (rk ++ [UInt8.ofNat rs.length] :: (rs ++ [[]])) :=
+    ⟨_, rfl⟩
+  rw [← hstack]
+  have hlen : stack.length = rk.length + rs.length + 3 := by rw [hstack]; exact shape_len _ _ _ _ _
+  unfold checkMultiSig
+  have c1 : ¬ stack.length < 1 := by omega
+  have g1 : getTop? stack 1 = some [UInt8.ofNat rk.length] := by simp [getTop?, hstack]
+  simp only [c1, if_false, g1, pyIdx, bind, Except.bind, castToBigNum_byte rk.length (by omega)]
+  have c2 : ¬ ((rk.length : Int) < 0 ∨ (rk.length : Int) > 20) := by omega
+  have c3 : ¬ (nops + (rk.length : Int).toNat > MAX_OPS_PER_SCRIPT) := by
+    simp only [MAX_OPS_PER_SCRIPT, Int.toNat_natCast]; omega
+  have c4 : ¬ ((stack.length : Int) < 2 + (rk.length : Int)) := by omega
+  have g2 : getTop? stack (2 + (rk.length : Int)) = some [UInt8.ofNat rs.length] := by
+    have : (2 + (rk.length : Int)) = ((rk.length + 1 : Nat) : Int) + 1 := by push_cast; omega
+    rw [this, getTop?_nat, hstack]
+    exact shape_m _ _ _ _ _
+  simp only [c2, if_false, c3, c4, g2, castToBigNum_byte rs.length (by omega)]
+  have c5 : ¬ ((rs.length : Int) < 0 ∨ (rs.length : Int) > (rk.length : Int)) := by omega
+  have c6 : ¬ ((stack.length : Int) < 2 + (rk.length : Int) + 1 + (rs.length : Int) - 1) := by omega
+  have c7 : ¬ ((stack.length : Int) < 2 + (rk.length : Int) + 1 + (rs.length : Int)) := by omega
+  simp only [c5, if_false, c6, c7, Int.toNat_natCast]
+  -- the signatures are not part of the script code
+  have hdrop : msDropSigs ⟨stack, alt, [], pb, nops + rk.length⟩ (2 + (rk.length : Int) + 1) rs.length 0 sc = .ok sc := by
+    have : (2 + (rk.length : Int) + 1) = ((rk.length + 2 : Nat) : Int) + 1 := by push_cast; omega
+    rw [this]
+    apply msDropSigs_noop
+    intro j hj
+    have hj' : rs[j]? = some rs[j] := List.getElem?_eq_getElem hj
+    refine ⟨rs[j], ?_, hsl _ (List.getElem_mem hj), hfad _ (List.getElem_mem hj) _⟩
+    simp only [Nat.add_zero]
+    rw [← hj', hstack]
+    exact shape_sig _ _ _ _ _ j hj
+  simp only [hdrop]
+  -- the matching loop
+  have hpos : (rs.length : Int) > 0 := by omega
+  have hloop : msLoop c 0xae sc ⟨stack, alt, [], pb, nops + rk.length⟩ (2 + (rk.length : Int) + 1) (rs.length : Int) 2
+      (rk.length : Int) = .ok (greedy chk rs rk) := by
+    have e1 : (2 + (rk.length : Int) + 1) = ((rk.length + 2 : Nat) : Int) + 1 := by push_cast; omega
+    have e2 : (2 : Int) = ((1 : Nat) : Int) + 1 := by rfl
+    rw [e1, e2, hrs]
+    apply msLoop_greedy c sc _ chk (fun s k => hchk _ s k) rk ss0 s0 (rk.length + 2) 1
+    · rw [← hrs]; exact hm
+    · intro j hj
+      simp only [hstack]
+      exact shape_key _ _ _ _ _ j hj
+    · intro j hj
+      rw [← hrs] at hj ⊢
+      simp only [hstack]
+      exact shape_sig _ _ _ _ _ j hj
+  simp only [hpos, if_true, hloop]
+  -- clean up the stack
+  have hpop : popN (2 + (rk.length : Int) + 1 + (rs.length : Int) - 1).toNat stack = .ok [[]] := by
+    have : (2 + (rk.length : Int) + 1 + (rs.length : Int) - 1).toNat = rk.length + rs.length + 2 := by omega
+    rw [this, popN_eq _ _ (by omega), hstack]
+    exact congrArg _ (shape_drop _ _ _ _ _)
+  simp only [hpop, nullDummyCheck, List.length_cons, List.length_nil, getTop?, pop?]
+  cases fl.nullDummy <;> simp [pyIdx, bind, Except.bind]
+
+
 end BtcVerif.C05T
